@@ -18,25 +18,27 @@ LANG = {"TAL", "METAL", "I18N", "META"}
 
 def run(repo, rep, tier):
     rep.explanation = (
-        "Whether a language attribute reaches the output is decided by a "
-        "positional pairing (zip) of the element's static attribute list "
-        "with its namespaced attribute mapping in tal.prepare_attributes.  "
-        "The pairing is sound only if nothing between the common origin of "
-        "the two collections (parser.unpack_attributes) and the zip changes "
-        "the length or order of one but not the other: every function that "
-        "receives both is analysed for removals/insertions (G-ZIP).  Lookups "
-        "keyed by template text need a guard (G-KEYED).  The namespace "
-        "stack of the tag parser must be popped once per index entry that an "
-        "end tag discards (G-PAIR over all paths of visit_end_tag).  The "
-        "drop tables and the element-omission tests are compared with the "
-        "four language namespaces.")
+        "Whether a language attribute reaches the output is decided in "
+        "tal.prepare_attributes from the namespace every static attribute "
+        "records for itself when parser.unpack_attributes resolves its "
+        "prefix (G-WHO-WRITES: nobody else writes that field; it is written "
+        "for every attribute, on every path of the one loop, with the value "
+        "the namespaced mapping is keyed by).  Where a positional pairing "
+        "(zip) of the attribute list with the namespaced mapping is used "
+        "instead, the pairing is proved aligned (G-ZIP: no function between "
+        "the common origin and the zip changes one collection but not the "
+        "other, and the mapping cannot lose entries).  Lookups keyed by "
+        "template text need a guard (G-KEYED).  The namespace stack of the "
+        "tag parser must be popped once per index entry that an end tag "
+        "discards (G-PAIR over all paths of visit_end_tag).  The drop tables "
+        "and the element-omission tests are compared with the four language "
+        "namespaces.")
     rep.assumptions = [
-        "attribute names are unique inside one start tag (duplicates "
-        "collapse in the namespaced mapping)",
         "equality of outputs across prefix spellings is not computed",
     ]
-    rep.rule("R18.1", "G-ZIP: collections paired by position stay aligned "
-                      "between their origin and the zip")
+    rep.rule("R18.1", "every static attribute carries its own resolved "
+                      "namespace (or: G-ZIP, collections paired by position "
+                      "stay aligned between their origin and the zip)")
     rep.rule("R18.2", "G-KEYED: lookups keyed by template text are guarded; "
                       "only language prefixes are converted from data-*")
     rep.rule("R18.3", "G-PAIR: one namespace map is popped per start-tag "
@@ -131,10 +133,139 @@ def _removal_indices(rep, g):
                           where=L.where(g, c.lineno), detail=src(c))
 
 
+def _own_namespace(repo, rep, pa):
+    """The drop set is computed from a field every attribute carries itself
+    (no pairing with a second collection that could fall out of step)."""
+    comps = [n for n in ast.walk(pa.node) if isinstance(
+        n, (ast.SetComp, ast.ListComp, ast.GeneratorExp))
+        and n.generators[0].ifs and "drop_ns" in src(n.generators[0].ifs[0])]
+    params = [a.arg for a in pa.node.args.args]
+    ok = len(comps) == 1 and src(comps[0].generators[0].iter) == params[0] \
+        and isinstance(comps[0].generators[0].target, ast.Name)
+    rep.check(ok, "R18.1", pa.qualname, "the drop set is computed by one "
+              "pass over the static attribute list itself",
+              construct="zip-present", where=L.where(pa),
+              detail=str([src(c.generators[0].iter) for c in comps]))
+    if not ok:
+        return
+    var = comps[0].generators[0].target.id
+    test = comps[0].generators[0].ifs[0]
+    fields = {n.slice.value for n in ast.walk(test)
+              if isinstance(n, ast.Subscript) and src(n.value) == var
+              and isinstance(n.slice, ast.Constant)}
+    t = src(test)
+    nsf = "%s['namespace']" % var
+    rep.check(("%s in drop_ns" % nsf) in t and
+              ("%s == XMLNS_NS" % nsf) in t and
+              ("%s['value'] in drop_ns" % var) in t and
+              isinstance(test, ast.BoolOp) and isinstance(test.op, ast.Or),
+              "R18.4", pa.qualname, "an attribute is dropped iff its "
+              "namespace is a language namespace, or it is an xmlns "
+              "declaration of one", construct="drop-test", where=L.where(pa),
+              detail=t)
+    loop = [n for n in pa.node.body if isinstance(n, ast.For)
+            and src(n.iter) == params[0]]
+    ok = bool(loop) and any(isinstance(x, ast.If) and
+                            src(x.test) == "name in drop" and
+                            isinstance(x.body[0], ast.Continue)
+                            for x in loop[0].body)
+    rep.check(ok, "R18.4", pa.qualname, "dropped names never enter the "
+              "prepared attribute list", construct="drop-applied",
+              where=L.where(pa))
+    # the field is recorded for every attribute, by the function that
+    # resolves the prefixes, with the namespace the mapping is keyed by
+    ua = repo.func(PARSER + "unpack_attributes")
+    loops = [n for n in ua.node.body if isinstance(n, ast.For)]
+    rec = key = None
+    if len(loops) == 1:
+        for st in loops[0].body:
+            if isinstance(st, ast.Assign) and isinstance(
+                    st.targets[0], ast.Subscript) and isinstance(
+                        st.targets[0].slice, ast.Constant) and \
+                    st.targets[0].slice.value == "namespace":
+                rec = st
+            if isinstance(st, ast.Assign) and \
+                    src(st.targets[0]).startswith("namespaced["):
+                key = st
+    lv = None
+    if len(loops) == 1:
+        tg = loops[0].target
+        if isinstance(tg, ast.Tuple) and "enumerate(" in src(loops[0].iter):
+            lv = src(tg.elts[1])
+        else:
+            lv = src(tg)
+    ok = rec is not None and key is not None and \
+        src(rec.targets[0].value) == lv and \
+        isinstance(key.targets[0].slice, ast.Tuple) and \
+        src(key.targets[0].slice.elts[0]) == src(rec.value) and \
+        not any(isinstance(n, (ast.Continue, ast.Break))
+                for n in ast.walk(loops[0]))
+    rep.check(ok, "R18.1", ua.qualname, "every attribute of the tag records "
+              "its own resolved namespace (top level of the one loop, no "
+              "early exit), the one its mapping key is built from: two "
+              "attributes that share an expanded name (lang / xml:lang on an "
+              "element without a namespace) still know theirs",
+              construct="origin-aligned", where=L.where(ua))
+    # nobody else writes that field
+    writers = []
+    for q, fn in sorted(repo.funcs.items()):
+        if fn is ua:
+            continue
+        for n in ast.walk(fn.node):
+            if isinstance(n, (ast.Assign, ast.AugAssign)):
+                for tg in (n.targets if isinstance(n, ast.Assign)
+                           else [n.target]):
+                    if isinstance(tg, ast.Subscript) and isinstance(
+                            tg.slice, ast.Constant) and \
+                            tg.slice.value == "namespace" and \
+                            "attr" in src(tg.value):
+                        writers.append((fn, n.lineno))
+    rep.check(not writers, "R18.1", ua.qualname, "the recorded namespace of "
+              "an attribute is written by the prefix resolution only",
+              construct="zip-partner-collapses", where=L.where(ua),
+              detail=str([(f_.qualname, l_) for f_, l_ in writers]))
+    # the functions that take attributes out before prepare_attributes
+    ve = repo.func(MP + "visit_element")
+    calls = [n for n in ast.walk(ve.node) if isinstance(n, ast.Call)
+             and src(n.func).endswith("prepare_attributes")]
+    if len(calls) != 1:
+        raise AnalysisError("call of prepare_attributes not found")
+    va = src(calls[0].args[0])
+    oa = [src(n.value) for n in ast.walk(ve.node) if isinstance(n, ast.Assign)
+          and src(n.targets[0]) == va]
+    rep.check("start['attrs']" in oa, "R18.1", ve.qualname, "the attribute "
+              "list handed over is the parsed tag's", construct="zip-origin",
+              where=L.where(ve), detail=str(oa))
+    g = repo.func(PROG + "convert_data_attributes")
+    gp = [a.arg for a in g.node.args.args]
+    eff = _param_effects(g, gp)
+    rem = {p_: [e for e in eff[p_] if e[0] == "remove"] for p_ in gp}
+    rep.check(bool(rem.get("attrs")) and bool(rem.get("ns_attrs")), "R18.1",
+              g.qualname, "a converted data-* attribute leaves the static "
+              "list and its stale entry leaves the mapping",
+              construct="unpaired-removal:" + g.name, where=L.where(g))
+    _removal_indices(rep, g)
+    # the stale mapping entry is addressed by the attribute's own key
+    pops = [n for n in ast.walk(g.node) if isinstance(n, ast.Call)
+            and src(n.func) == "ns_attrs.pop" and n.args]
+    okk = len(pops) == 1 and isinstance(pops[0].args[0], ast.Tuple) and \
+        [src(e) for e in pops[0].args[0].elts] == ["attr['namespace']",
+                                                   "attr['name']"]
+    rep.check(okk, "R18.1", g.qualname, "the stale entry is the one keyed by "
+              "the attribute's own (namespace, name)",
+              construct="snapshot-index:keys", where=L.where(g),
+              detail=str([src(p_) for p_ in pops]))
+    rep.check(True, "R18.1", ve.qualname, "the functions that take "
+              "attributes out before the drop set is computed were analysed",
+              construct="zip-callees", detail="1")
+
+
 def _zip(repo, rep):
     pa = repo.func("chameleon.tal.prepare_attributes")
     zips = [n for n in ast.walk(pa.node) if isinstance(n, ast.Call)
             and src(n.func) == "zip" and len(n.args) == 2]
+    if not zips:
+        return _own_namespace(repo, rep, pa)
     rep.check(len(zips) == 1, "R18.1", pa.qualname, "the drop set pairs the "
               "static attributes with the namespaced ones by position",
               construct="zip-present", where=L.where(pa),
